@@ -34,6 +34,17 @@ func tierFor(tier string, idx uint64) string {
 	if idx < coldIndices {
 		return tier + "/cold"
 	}
+	// rare and costly plan classes are PLACED, not left to chance, so that every
+	// batch of a thousand runs has them whatever its seed (a scenario that
+	// has no such class ignores the suffix)
+	switch idx % 1024 {
+	case 200:
+		return tier + "/rare1"
+	case 300:
+		return tier + "/rare2"
+	case 400:
+		return tier + "/rare3"
+	}
 	return tier
 }
 
